@@ -470,6 +470,9 @@ def proof_stage(chk, prop_modules, extra_targets=("pvdriver",), thorough_leanche
     if ext_problems:
         # a fact could not be regenerated from the current source: the theorems no longer speak about this code
         detail += ["extractor: " + p for p in ext_problems]
+    # the model then runs on placeholder or stale facts (also when a text pin turned a `…AsModelled` fact false and the
+    # matching `…_as_modelled` theorem broke): what it predicts (ub / fault) is no longer a statement about this code
+    chk.model_untrusted = bool(ext_problems) or (not ok and ("as_modelled" in out.lower() or "asmodelled" in out.lower()))
     if not ok:
         detail.append("lake build failed:\n" + "\n".join(l for l in out.splitlines() if "error" in l.lower())[:3000])
         # can the driver still be built (model intact, only theorems broken)?
